@@ -49,8 +49,8 @@ Definition is_optimal (s : status) : bool := match s with Optimal => true | _ =>
                      "external_solution_paths"): _is_solved = True from the start, no solver is created
    obj_fills_cache : get_objective_value calls get_solution (all k-models except kPathCover[Cycles])
    (The search classes keep their own flag: False at construction, set_solved() on success and
-   never cleared; NumPathsOptimization does not even initialise it, so its is_solved() raises
-   AttributeError until solve() has succeeded.  Their getters are compared directly in the engine.) *)
+   never cleared (NumPathsOptimization too, since /repo c4fc05d).  Their getters are compared directly
+   in the engine.) *)
 Record kcfg := mkcfg { external : bool; obj_fills_cache : bool }.
 Record kstate := mkst { solved : bool; cached : bool }.
 Inductive kop := Solve (r : raw) | GetSolution | GetObjective | IsSolvedQ.
@@ -152,6 +152,10 @@ Fixpoint mgs_loop (mgs_skips : bool) (ks : list nat) (sts : list raw) (n : nat) 
 (* exclusive upper end of the range: max(lowerbound+1, len(initial_numbers)) on the pinned tree (DESIGN §6 #13),
    max(lowerbound+1, len(initial_numbers)+2) since /repo commit 2966290 (n+1 elements always suffice) *)
 Definition mgs_upper (lb nnumbers : nat) : nat := Nat.max (lb + 1) (nnumbers + 2).
+(* since /repo 883b781 partition constraints extend the range: the size that enters mgs_upper is
+   len(initial_numbers) + sum(len(c) - 1 for c in partition_constraints); everywhere below the parameter
+   called nnumbers / nweights is this size *)
+Definition mgs_size (ninitial extra_cuts : nat) : nat := ninitial + extra_cuts.
 Definition mgs_range (lb nnumbers : nat) : list nat := krange lb (mgs_upper lb nnumbers).
 
 Definition mgs_solve (mgs_skips : bool) (lb nnumbers : nat) (sts : list raw) : outcome :=
@@ -177,7 +181,7 @@ Record fd_params := mkfd {
   upper_excl : bool;         (* range(lb, |E|) instead of range(lb, |E| + 1) *)
   nedges : nat;              (* G.number_of_edges() *)
   use_mgs : bool;            (* optimization option use_min_gen_set_lowerbound *)
-  nweights : nat;            (* number of distinct flow values = len(numbers) of the MinGenSet model *)
+  nweights : nat;            (* mgs_size (number of distinct flow values) (extra cuts of the partition constraints) *)
   guessed : bool;            (* optimization option optimize_with_guessed_weights *)
   gw_paths : nat;            (* non-empty paths/walks of the guessed-weights solution, if it is solved *)
   greedy : nat -> bool;      (* kFlowDecomp(k) is solved by its constructor (always false for cycles) *)
@@ -304,10 +308,10 @@ Definition q_of_list (l : list Q) : nat -> Q := fun k => nth k l 0%Q.
 Definition run_kmodel (ext objfill : bool) (ops : list kop) : list kout * nat :=
   let c := mkcfg ext objfill in (snd (kruns c (kinit c) ops), kinvocations c ops).
 
-Definition run_mgs (skips : bool) (lb n : nat) (sts : list raw) : outcome := mgs_solve skips lb n sts.
-Definition run_mfd (skips exits excl : bool) (lb0 ne : nat) (umgs : bool) (nw : nat) (gu : bool) (gw : nat)
+Definition run_mgs (skips : bool) (lb n cuts : nat) (sts : list raw) : outcome := mgs_solve skips lb (mgs_size n cuts) sts.
+Definition run_mfd (skips exits excl : bool) (lb0 ne : nat) (umgs : bool) (nw cuts : nat) (gu : bool) (gw : nat)
   (gr : list bool) (sts : list raw) : outcome :=
-  mfd_solve skips exits (mkfd lb0 excl ne umgs nw gu gw (of_list gr) never) sts.
+  mfd_solve skips exits (mkfd lb0 excl ne umgs (mgs_size nw cuts) gu gw (of_list gr) never) sts.
 Definition run_mfdc (skips excl : bool) (lb0 ne : nat) (umgs : bool) (nw : nat) (gu : bool) (gw : nat)
   (ov : list bool) (sts : list raw) : outcome :=
   mfdc_solve skips (mkfd lb0 excl ne umgs nw gu gw never (of_list ov)) sts.
